@@ -1,0 +1,103 @@
+//go:build verif
+
+// Round-trip lemmas for the OpenVPN wire-message codecs (property C18), stated as Go functions
+// over the real FromBytes/ToBytes methods and proved by /verif/gvc for all inputs: every lemma
+// must return true. This file is only compiled with the build tag `verif`; nothing calls it.
+
+package l4openvpn
+
+import "bytes"
+
+// parse o serialise = identity on accepted inputs (and accepted inputs have the documented length)
+
+func lemmaHeaderParseSerialize(src []byte) bool {
+	msg := &MessageHeader{}
+	if msg.FromBytes(src) != nil {
+		return true
+	}
+	return len(src) == OpcodeKeyIDBytesTotal && bytes.Equal(msg.ToBytes(), src)
+}
+
+func lemmaPlainParseSerialize(src []byte) bool {
+	msg := &MessagePlain{}
+	if msg.FromBytes(src) != nil {
+		return true
+	}
+	return len(src) == MessagePlainBytesTotal && bytes.Equal(msg.ToBytes(), src)
+}
+
+func lemmaAuthParseSerialize(src []byte) bool {
+	msg := &MessageAuth{}
+	if msg.FromBytes(src) != nil {
+		return true
+	}
+	return len(src) >= MessageAuthBytesMin && len(src) <= MessageAuthBytesMax && bytes.Equal(msg.ToBytes(), src)
+}
+
+func lemmaCryptParseSerialize(src []byte) bool {
+	msg := &MessageCrypt{}
+	if msg.FromBytes(src) != nil {
+		return true
+	}
+	return len(src) == MessageCryptBytesTotal && bytes.Equal(msg.ToBytes(), src)
+}
+
+func lemmaWrappedKeyParseSerialize(src []byte) bool {
+	wk := &WrappedKey{}
+	if wk.FromBytes(src) != nil {
+		return true
+	}
+	return len(src) >= WrappedKeyBytesMin && len(src) <= WrappedKeyBytesMax && bytes.Equal(wk.ToBytes(), src)
+}
+
+func lemmaCrypt2ParseSerialize(src []byte) bool {
+	msg := &MessageCrypt2{}
+	if msg.FromBytes(src) != nil {
+		return true
+	}
+	return len(src) >= MessageCrypt2BytesMin && len(src) <= MessageCrypt2BytesMax && bytes.Equal(msg.ToBytes(), src)
+}
+
+// serialise o parse = identity on well-formed messages
+
+func lemmaHeaderSerializeParse(opcode, keyID uint8) bool {
+	if opcode > 31 || keyID > 7 {
+		return true // not a well-formed header: 5-bit opcode, 3-bit key id
+	}
+	in := &MessageHeader{Opcode: opcode, KeyID: keyID}
+	out := &MessageHeader{}
+	if out.FromBytes(in.ToBytes()) != nil {
+		return false
+	}
+	return out.Opcode == opcode && out.KeyID == keyID
+}
+
+func lemmaPlainSerializeParse(keyID uint8, session uint64, count uint8, packet uint32) bool {
+	if keyID > 7 {
+		return true
+	}
+	in := &MessagePlain{MessageHeader: MessageHeader{Opcode: OpcodeControlHardResetClientV2, KeyID: keyID},
+		LocalSessionID: session, PrevPacketIDsCount: count, ThisPacketID: packet}
+	out := &MessagePlain{}
+	if out.FromBytes(in.ToBytes()) != nil {
+		return false
+	}
+	return out.Opcode == in.Opcode && out.KeyID == keyID && out.LocalSessionID == session &&
+		out.PrevPacketIDsCount == count && out.ThisPacketID == packet
+}
+
+func lemmaCryptSerializeParse(keyID uint8, session uint64, replayID, replayTS uint32, hmac, encrypted []byte) bool {
+	if keyID > 7 || len(hmac) != CryptHMACBytesTotal || len(encrypted) != OpcodeKeyIDBytesTotal+PacketIDBytesTotal {
+		return true
+	}
+	in := &MessageCrypt{}
+	in.Opcode, in.KeyID, in.LocalSessionID = OpcodeControlHardResetClientV2, keyID, session
+	in.ReplayPacketID, in.ReplayTimestamp, in.HMAC, in.Encrypted = replayID, replayTS, hmac, encrypted
+	out := &MessageCrypt{}
+	if out.FromBytes(in.ToBytes()) != nil {
+		return false
+	}
+	return out.Opcode == in.Opcode && out.KeyID == keyID && out.LocalSessionID == session &&
+		out.ReplayPacketID == replayID && out.ReplayTimestamp == replayTS &&
+		bytes.Equal(out.HMAC, hmac) && bytes.Equal(out.Encrypted, encrypted)
+}
